@@ -1,8 +1,9 @@
 """C01 — parse -> print -> parse is a fixpoint for every accepted statement.
 
 Two populations, reported separately in the evidence file:
-  in_model       the operator core (lib/props/c01core.py) and the query core -- the SELECT / query skeleton
-                 (lib/props/c01query.py) --, proved in Coq and tied to the implementation;
+  in_model       the operator core (lib/props/c01core.py), the query core -- the SELECT / query skeleton
+                 (lib/props/c01query.py) -- and the DDL core -- CREATE TABLE with column definitions
+                 (lib/props/c01ddl.py) --, proved in Coq and tied to the implementation;
   outside_model  the rest of the grammar: the property itself evaluated on the implementation as search
                  (harness/rtx `roundtrip` / `splice`), every failure mapped to a root-cause key (lib/rtlib.py).
 """
@@ -69,6 +70,17 @@ def check(run):
                 traceback.print_exc()
                 run.violation({"what": "the query-core tables (coq/gen/QueryTables.v) could not be regenerated", "unchecked": "C01 query core (lib/props/c01query.py)",
                                "tool_output": (str(e) or repr(e))[-3000:]}, no_input=True)
+            # coq/gen/DdlTables.v and DataTypeTables.v are required by coq/Properties/C01.v as well
+            c01ddl = importlib.import_module("props.c01ddl")
+            dtables = None
+            try:
+                dtables = c01ddl.gen_ddl_tables()
+            except BuildFailed:
+                raise
+            except Exception as e:
+                traceback.print_exc()
+                run.violation({"what": "the DDL-core tables (coq/gen/DdlTables.v, DataTypeTables.v) could not be regenerated", "unchecked": "C01 DDL core (lib/props/c01ddl.py)",
+                               "tool_output": (str(e) or repr(e))[-3000:]}, no_input=True)
             c01core.check_core(run, PROP)
             if qtables is not None:
                 try:
@@ -78,6 +90,15 @@ def check(run):
                 except Exception as e:
                     traceback.print_exc()
                     run.violation({"what": "the query-core (in_model) part of C01 failed to run", "unchecked": "C01 query core (lib/props/c01query.py)",
+                                   "tool_output": (str(e) or repr(e))[-3000:]}, no_input=True)
+            if dtables is not None:
+                try:
+                    c01ddl.check_ddl(run, PROP, tables=dtables)
+                except BuildFailed:
+                    raise
+                except Exception as e:
+                    traceback.print_exc()
+                    run.violation({"what": "the DDL-core (in_model) part of C01 failed to run", "unchecked": "C01 DDL core (lib/props/c01ddl.py)",
                                    "tool_output": (str(e) or repr(e))[-3000:]}, no_input=True)
     except BuildFailed:
         raise
